@@ -569,6 +569,15 @@ class SFrame:
                 names = [names] if isinstance(names, str) else list(names)
                 return SFrame({c: v for c, v in self.cols.items() if c not in names}, self.labels)
             return Handler(drop, "DataFrame.drop")
+        if name == "to_records":
+            def to_records(it_, index=True, **k):
+                from .npmodel import SRecArray
+
+                cols = dict(self.cols)
+                if index:
+                    cols = {"index": list(self.labels), **cols}
+                return SRecArray(cols)
+            return Handler(to_records, "DataFrame.to_records")
         if name == "T":
             raise Undecided("DataFrame.T")
         if name == "to_numpy":
@@ -962,6 +971,14 @@ def agrees(real, model, depth=0):
         if [lift(i) for i in real.index.tolist()] != list(model.labels):
             return False
         return all(agrees(real[c].tolist(), model.cols[c], depth + 1) for c in model.cols)
+    if type(model).__name__ == "SRecArray":
+        try:
+            names = list(real.dtype.names or ())
+        except Exception:
+            return False
+        if names != list(model.cols.keys()):
+            return False
+        return all(agrees(real[c].tolist(), model.cols[c], depth + 1) for c in names)
     if isinstance(model, SArrayLite):
         if isinstance(real, np.ndarray):
             real = real.tolist()
